@@ -6,7 +6,8 @@
 (* state st = [pool : [d0, d1, fee (rate, Q), sp (tick spacing), zq (token0   *)
 (*                    is the quote token)],                                   *)
 (*             w   : <<token0 balance, token1 balance>> (wallet, Q),          *)
-(*             pos : [Ranges -> [on, liq (natural), p0, p1 (pending, Q)]],    *)
+(*             pos : [Ranges -> [on, liq (natural), p0, p1 (pending, Q),      *)
+(*                    out (lent to another market: transfer_position_out)]],  *)
 (*             prev: previous bar's close tick, row: index into Rows, k]      *)
 (* Rows = table of bar rows [open, close (ticks), liq (pool liquidity,        *)
 (*        natural), in0, in1 (bar volume in wei)]; endbar(next) chooses the   *)
@@ -40,6 +41,9 @@ BaseOf(st, x01) == IF st.pool.zq THEN x01[2] ELSE x01[1]
 QuoteOf(st, x01) == IF st.pool.zq THEN x01[1] ELSE x01[2]
 
 OnRanges(st) == {r \in Ranges : st.pos[r].on}
+(* a position lent to another market (a Squeeth vault holds it as collateral) stays in the pool - it keeps its share of the pool's
+   liquidity and earns its fees - but it is valued by the market that holds it, not by this one *)
+HeldRanges(st) == {r \in OnRanges(st) : ~st.pos[r].out}
 RECURSIVE NSum(_, _)
 NSum(S, f) == IF S = {} THEN <<>> ELSE LET x == CHOOSE y \in S : TRUE IN NAdd(f[x], NSum(S \ {x}, f))
 OwnLiq(st) == NSum(OnRanges(st), [r \in Ranges |-> st.pos[r].liq])
@@ -49,7 +53,7 @@ PosAmounts(st, r, liq) == Amounts(SqrtNow(st), SqrtRatioAtTick(r[1]), SqrtRatioA
 (* value in quote token of a pair of token0/token1 amounts at the bar's pool price *)
 ValueOf(st, x01) == QAdd(QMul(BaseOf(st, x01), Price(st)), QuoteOf(st, x01))
 PositionValue(st) ==   \* liquidity plus uncollected fees of all positions
-  QSumSet(OnRanges(st), [r \in Ranges |-> IF st.pos[r].on
+  QSumSet(HeldRanges(st), [r \in Ranges |-> IF st.pos[r].on
       THEN LET a == PosAmounts(st, r, st.pos[r].liq) IN ValueOf(st, <<QAdd(a[1], st.pos[r].p0), QAdd(a[2], st.pos[r].p1)>>)
       ELSE Zero])
 WalletValue(st) == ValueOf(st, st.w)
@@ -63,8 +67,8 @@ View(st) ==
               [a0 |-> a[1], a1 |-> a[2], lv |-> ValueOf(st, a), pv |-> ValueOf(st, <<st.pos[r].p0, st.pos[r].p1>>),
                v |-> ValueOf(st, <<QAdd(a[1], st.pos[r].p0), QAdd(a[2], st.pos[r].p1)>>)]],
    net |-> PositionValue(st),
-   base_unc  |-> QSumSet(OnRanges(st), [r \in Ranges |-> BaseOf(st, <<st.pos[r].p0, st.pos[r].p1>>)]),
-   quote_unc |-> QSumSet(OnRanges(st), [r \in Ranges |-> QuoteOf(st, <<st.pos[r].p0, st.pos[r].p1>>)]),
+   base_unc  |-> QSumSet(HeldRanges(st), [r \in Ranges |-> BaseOf(st, <<st.pos[r].p0, st.pos[r].p1>>)]),
+   quote_unc |-> QSumSet(HeldRanges(st), [r \in Ranges |-> QuoteOf(st, <<st.pos[r].p0, st.pos[r].p1>>)]),
    price |-> Price(st)]
 
 (* estimate helpers (estimate_amount / estimate_liquidity), relationally: the token amounts are worth `value` at the pool price and
@@ -80,7 +84,7 @@ EstimateOK(st, r, value, a0, a1, liq) ==
 
 (* bar 0: the price is that of the row's open tick; the code's fee path of bar 0 starts at its own close (no previous bar) *)
 InitSt(pool, w0, row0) == [pool |-> pool, w |-> w0,
-                           pos |-> [r \in Ranges |-> [on |-> FALSE, liq |-> <<>>, p0 |-> Zero, p1 |-> Zero]],
+                           pos |-> [r \in Ranges |-> [on |-> FALSE, liq |-> <<>>, p0 |-> Zero, p1 |-> Zero, out |-> FALSE]],
                            ptick |-> Rows[row0].open, prev |-> Rows[row0].close, row |-> row0, k |-> 0, wrote |-> FALSE, bar |-> 0]
 
 Ok(st2, acts, ret) == [st |-> st2, out |-> "ok", acts |-> acts, ret |-> ret]
@@ -131,6 +135,10 @@ Remove(st, r, liq, collect) ==
           ELSE LET c == CollectCore(s1, r, AllAmt, AllAmt) IN
                Ok(c.st, <<a1, [type |-> "collect", range |-> r, base |-> BaseOf(st, c.got), quote |-> QuoteOf(st, c.got)]>>,
                   [base |-> BaseOf(st, c.got), quote |-> QuoteOf(st, c.got)])
+
+(* transfer_position_out / transfer_position_in: the position is lent to / returned by another market; no action record *)
+Lend(st, r)   == IF ~st.pos[r].on \/ st.pos[r].out THEN Reject(st) ELSE Ok([st EXCEPT !.pos[r].out = TRUE], <<>>, <<>>)
+Unlend(st, r) == IF ~st.pos[r].on \/ ~st.pos[r].out THEN Reject(st) ELSE Ok([st EXCEPT !.pos[r].out = FALSE], <<>>, <<>>)
 
 (* buy(base amount) / sell(base amount) at the pool price; the fee is charged on the token paid in *)
 SetBQ(st, b, q) == [st EXCEPT !.w = Pair(st, b, q)]
@@ -188,6 +196,8 @@ Step(st, ev) ==
              [] ev.op = "collect" -> Collect(st, ev.r, ev.m0, ev.m1)
              [] ev.op = "buy"     -> Buy(st, ev.a)
              [] ev.op = "sell"    -> Sell(st, ev.a)
+             [] ev.op = "lend"    -> Lend(st, ev.r)
+             [] ev.op = "unlend"  -> Unlend(st, ev.r)
              [] ev.op = "endbar"  -> EndBar(st, ev.next)
   IN [r EXCEPT !.st.k = st.k + 1]
 
